@@ -11,6 +11,7 @@ import (
 	"encoding/hex"
 	"fmt"
 	"hash"
+	"os"
 	"runtime"
 	"sort"
 	"strconv"
@@ -64,6 +65,8 @@ type Sim struct {
 	Ambig    int
 	notes    []string
 
+	Inert bool // an enclosing run that only collects results of sub-runs: nothing ever parks in it
+
 	StepHook func(s *Sim) // evaluated at every quiescent point before a release
 
 	Violations []Violation
@@ -72,6 +75,7 @@ type Sim struct {
 	Aborted    string // non-empty: run inconclusive (step cap)
 	SimTime    time.Duration
 	t0         time.Time
+	prev       *Sim
 }
 
 type task struct {
@@ -102,6 +106,7 @@ func New(plan, sched *Tape) *Sim {
 		t0:       time.Now(),
 	}
 	s.sched = Goid()
+	s.prev = cur
 	cur = s
 	return s
 }
@@ -119,7 +124,7 @@ func (s *Sim) Close() {
 	}
 	s.SimTime = time.Since(s.t0)
 	if cur == s {
-		cur = nil
+		cur = s.prev
 	}
 	synctest.Wait()
 	s.flushNotes()
@@ -146,6 +151,9 @@ func (s *Sim) Probe(name string) {
 func (s *Sim) Violate(clause, site, format string, a ...any) {
 	s.mu.Lock()
 	defer s.mu.Unlock()
+	if s.closed {
+		return // stragglers released at the end of a run do not report
+	}
 	if len(s.Violations) < 20 {
 		s.Violations = append(s.Violations, Violation{Clause: clause, Site: site, Detail: fmt.Sprintf(format, a...), Step: s.Steps})
 	}
@@ -197,7 +205,9 @@ func createdBy() (fn string, parent int64) {
 	return line, parent
 }
 
-// labelOf returns (and on first use derives) the label of goroutine gid.
+// labelOf returns (and on first use derives) the label of goroutine gid; ""
+// means the goroutine does not belong to this simulation (a straggler of an
+// earlier run in the same process): such goroutines are never parked here.
 // Caller holds s.mu.
 func (s *Sim) labelOf(gid int64) string {
 	if l, ok := s.labels[gid]; ok {
@@ -206,21 +216,100 @@ func (s *Sim) labelOf(gid int64) string {
 	fn, parent := createdBy()
 	pl, ok := s.labels[parent]
 	if !ok {
-		pl = "orphan"
-		s.Probes["orphan_label"]++
+		pl = s.resolveAncestor(parent)
+		if pl == "" {
+			s.Probes["foreign_goroutine"]++
+			if os.Getenv("VERIF_DEBUG_ORPHAN") != "" {
+				buf := make([]byte, 16<<10)
+				n := runtime.Stack(buf, false)
+				fmt.Fprintf(os.Stderr, "FOREIGN goroutine: created by %s parent %d\n%s\n", fn, parent, buf[:n])
+			}
+			s.labels[gid] = ""
+			return ""
+		}
 	}
-	var l string
-	if strings.Contains(fn, "performQueuedEvictionsContinuously") {
-		// the background remover of the instance its creator belongs to
-		l = instancePrefix(pl) + "remover"
-	} else {
-		base := pl + "/" + fn
-		k := s.children[base]
-		s.children[base] = k + 1
-		l = base + "#" + strconv.Itoa(k)
-	}
+	l := s.childLabel(pl, fn)
 	s.labels[gid] = l
 	return l
+}
+
+func (s *Sim) childLabel(pl, fn string) string {
+	if strings.Contains(fn, "performQueuedEvictionsContinuously") {
+		// the background remover of the instance its creator belongs to
+		return instancePrefix(pl) + "remover"
+	}
+	base := pl + "/" + fn
+	k := s.children[base]
+	s.children[base] = k + 1
+	return base + "#" + strconv.Itoa(k)
+}
+
+// resolveAncestor labels goroutine gid (which never reached a scheduling point
+// itself) from its own creator chain, using a dump of all stacks.
+func (s *Sim) resolveAncestor(gid int64) string {
+	if gid < 0 {
+		return ""
+	}
+	buf := make([]byte, 4<<20)
+	n := runtime.Stack(buf, true)
+	type info struct {
+		fn     string
+		parent int64
+	}
+	all := map[int64]info{}
+	for _, blk := range strings.Split(string(buf[:n]), "\n\n") {
+		if !strings.HasPrefix(blk, "goroutine ") {
+			continue
+		}
+		rest := blk[len("goroutine "):]
+		sp := strings.IndexByte(rest, ' ')
+		if sp < 0 {
+			continue
+		}
+		id, err := strconv.ParseInt(rest[:sp], 10, 64)
+		if err != nil {
+			continue
+		}
+		i := strings.LastIndex(blk, "created by ")
+		if i < 0 {
+			continue
+		}
+		line := blk[i+len("created by "):]
+		if j := strings.IndexByte(line, '\n'); j >= 0 {
+			line = line[:j]
+		}
+		par := int64(-1)
+		if j := strings.LastIndex(line, " in goroutine "); j >= 0 {
+			par, _ = strconv.ParseInt(strings.TrimSpace(line[j+len(" in goroutine "):]), 10, 64)
+			line = line[:j]
+		}
+		if j := strings.LastIndexByte(line, '/'); j >= 0 {
+			line = line[j+1:]
+		}
+		all[id] = info{line, par}
+	}
+	var chain []int64
+	cur := gid
+	for depth := 0; depth < 8; depth++ {
+		if l, ok := s.labels[cur]; ok {
+			if l == "" {
+				return ""
+			}
+			// label the chain downwards
+			for i := len(chain) - 1; i >= 0; i-- {
+				l = s.childLabel(l, all[chain[i]].fn)
+				s.labels[chain[i]] = l
+			}
+			return l
+		}
+		inf, ok := all[cur]
+		if !ok {
+			return ""
+		}
+		chain = append(chain, cur)
+		cur = inf.parent
+	}
+	return ""
 }
 
 // instancePrefix returns the "gN:" prefix of a label ("" if none).
@@ -244,6 +333,9 @@ func (s *Sim) Label() string {
 	gid := Goid()
 	s.mu.Lock()
 	defer s.mu.Unlock()
+	if s.closed || s.Inert || gid == s.sched {
+		return ""
+	}
 	return s.labelOf(gid)
 }
 
@@ -265,7 +357,7 @@ func (s *Sim) park(glabel, point string, isYield bool) { s.parkX(glabel, point, 
 func (s *Sim) parkX(glabel, point string, isYield, low bool) {
 	gid := Goid()
 	s.mu.Lock()
-	if s.closed || gid == s.sched {
+	if s.closed || s.Inert || gid == s.sched {
 		s.mu.Unlock()
 		return
 	}
@@ -275,6 +367,10 @@ func (s *Sim) parkX(glabel, point string, isYield, low bool) {
 	}
 	if glabel == "" {
 		glabel = s.labelOf(gid)
+		if glabel == "" {
+			s.mu.Unlock()
+			return // not a goroutine of this simulation
+		}
 	}
 	e := &entry{label: glabel + "@" + point, glab: glabel, ch: make(chan struct{}), low: low}
 	s.parked = append(s.parked, e)
@@ -330,6 +426,9 @@ func (s *Sim) Go(label string, f func()) {
 			s.mu.Unlock()
 		}()
 		s.Park("start")
+		if s.Closed() {
+			return // the run ended (or this instance was killed) before the task ever ran
+		}
 		f()
 	}()
 }
@@ -558,7 +657,9 @@ func (s *Sim) TraceHash() string {
 func (s *Sim) Note(format string, a ...any) {
 	msg := fmt.Sprintf(format, a...)
 	s.mu.Lock()
-	s.notes = append(s.notes, msg)
+	if !s.closed {
+		s.notes = append(s.notes, msg)
+	}
 	s.mu.Unlock()
 }
 
